@@ -439,6 +439,50 @@ func init() {
 		}
 		return e.jsonUnmarshalInto(j, p.P, pt.Elem(), s, 0)
 	})
+	// json.NewDecoder(r).Decode(v): reads the first value of the stream and ignores what follows
+	reg("encoding/json.NewDecoder", func(e *Engine, fn *ssa.Function, a []Value, s ssa.Instruction) Value {
+		c := new(Value)
+		*c = &Native{Kind: "jsondecoder", Data: a[0]}
+		return Ptr{P: c}
+	})
+	reg("(*encoding/json.Decoder).Decode", func(e *Engine, fn *ssa.Function, a []Value, s ssa.Instruction) Value {
+		dp, _ := a[0].(Ptr)
+		if dp.P == nil {
+			e.goPanicf(s, "nil *json.Decoder")
+		}
+		dec, ok := (*dp.P).(*Native)
+		if !ok || dec.Kind != "jsondecoder" {
+			e.abort("unsupported", "json.Decoder without model")
+		}
+		src, _ := dec.Data.(Value).(Iface)
+		var data Value
+		if rp, ok := src.V.(Ptr); ok && rp.P != nil {
+			if n, ok := (*rp.P).(*Native); ok && (n.Kind == "body" || n.Kind == "reader") {
+				data = n.Data.(Value)
+				n.Data = Value(Slice(nil))
+			}
+		}
+		if data == nil {
+			e.abort("unsupported", "json.Decoder over a reader without model")
+		}
+		j := e.jdoc(data)
+		if j.Kind == "invalid" {
+			if j.First == nil {
+				return e.errorf("invalid character in JSON")
+			}
+			j = j.First
+		}
+		ifc := a[1].(Iface)
+		pt, ok2 := ifc.T.Underlying().(*types.Pointer)
+		p, _ := ifc.V.(Ptr)
+		if !ok2 || p.P == nil {
+			return e.errorf("json: Decode(non-pointer or nil)")
+		}
+		if m := e.methodNamed(ifc.T, "UnmarshalJSON"); m != nil && j.Kind != "null" {
+			return e.call(m, []Value{ifc.V, JBytes{j}}, s)
+		}
+		return e.jsonUnmarshalInto(j, p.P, pt.Elem(), s, 0)
+	})
 	reg("encoding/json.Valid", func(e *Engine, fn *ssa.Function, a []Value, s ssa.Instruction) Value {
 		return mkBool(e.jdoc(a[0]).Kind != "invalid")
 	})
